@@ -348,6 +348,22 @@ func derivedCases(r *vc.Rng, id func() string) []Case {
 	mk("draw:nonces_equal", "server_nonce equals the client's nonce", func(c *Case) { c.ServerNonce = c.Nonce })
 	mk("draw:b=1", "client exponent b = 1 (g_b = g)", func(c *Case) { c.B = hx(hsserver.Fixed(big.NewInt(1), 256)) })
 	mk("draw:b=max", "client exponent b = 2^2048-1", func(c *Case) { c.B = ff(256) })
+	// exponents that make g_b a SHORT number (g^b below the prime): the TL string that carries g_b then has every
+	// header form and alignment, and client_DH_inner_data every length modulo the cipher's block - a g_b of 253 bytes
+	// (one exchange in 2^24) makes hash + data exactly block-aligned
+	for _, n := range []int{2, 3, 12, 13, 15, 16, 28, 31, 60, 124, 252, 253, 254, 255} {
+		n := n
+		mk(fmt.Sprintf("draw:g_b_bytes=%d", n), fmt.Sprintf("client exponent b such that g_b = g^b has %d bytes", n), func(c *Case) {
+			g, x := big.NewInt(int64(c.G)), big.NewInt(1)
+			for b := 1; b < 6000; b++ {
+				x.Mul(x, g)
+				if len(x.Bytes()) >= n {
+					c.B = hx(hsserver.Fixed(big.NewInt(int64(b)), 256))
+					return
+				}
+			}
+		})
+	}
 	mk("g_a:min", "g = 2, a = 1: g_a = 2, the smallest value the range check 1 < g_a < dh_prime-1 admits", func(c *Case) {
 		c.G, c.A, c.GAWidth = 2, "01", 0
 	})
